@@ -84,6 +84,20 @@ def gen(rng, tier, i):
         upstalled.append({"cid": "us%d" % k, "how": how})
     if any(u["how"] == "syn" for u in upstalled):
         sc.faults.append({"at_ms": 0, "kind": "stall", "ip": dead_ip})
+    # a client that provokes a large failure reply and never reads it: the upstream proxy refuses verbosely, the proxy
+    # quotes the refusal in its error page, the page does not fit the socket buffers - the writer of that page must not
+    # hold anything the API or other connections need
+    bigno = sc.add_http_connector("bigno")
+    bigno["server"]["default_ops"] = [op("recv_http_head", label="upreq", on_fail="continue"),
+                                      send(b"HTTP/1.1 403 No\r\n" + b"".join(b"X-Why-%d: %s\r\n" % (n, b"because " * 40) for n in range(300)) + b"Content-Length: 0\r\n\r\n", on_fail="continue"),
+                                      op("sleep", ms=3600000)]
+    sc.cfg["rules"].insert(0, {"target": "bigno", "filter": "request.target.port == 11"})
+    for k in range(rng.choice([0, 0, 1, 2])):
+        li = lis[rng.choice(["http", "socks"])]
+        hs, proto = sc.client_handshake(li, oip, 11, variant="5p" if li["kind"] == "socks" else None)
+        sends = [o for o in hs if o["op"] == "send"]
+        sc.add_client("ur%d" % k, li, sends + [op("sleep", ms=3600000)], start_ms=t_stall + 30 + k, background=True)
+        stalled.append({"cid": "ur%d" % k, "lk": li["kind"] + "-unread-error", "j": 0})
     # API calls and canaries
     t0 = t_stall + 2000
     calls = []
